@@ -291,6 +291,11 @@ impl Ctx {
             Err(p) => {
                 ev.insert("outcome".into(), json!("panic"));
                 ev.insert("msg".into(), json!(panic_msg(p)));
+                // an open that is EXPECTED to be refused (wrong key type in the same session): the refusal may come
+                // as a panic; the session goes on afterwards
+                if name == "map" && op.get("expect_refusal").and_then(|b| b.as_bool()).unwrap_or(false) {
+                    ev.insert("cont".into(), json!(true));
+                }
             }
         }
         let mut v = Value::Object(ev);
